@@ -26,7 +26,9 @@ def handle (j : Json) : Except String Json := do
   let (ch, cc) := assemble (cells.filter (!·.isEmpty))
   let (sh, sc) := assemble (surfaces.filter (!·.isEmpty))
   let (dh, dc) := assemble (data.filter (!·.isEmpty))
-  let p : WProblem := ⟨message, title.toList, ch, cc, sh, sc, dh, dc⟩
+  let p : WProblem := (⟨message, title.toList, ch, cc, sh, sc, dh, dc⟩ : WProblem).strip
+  let (cc, sc, dc) := (p.cells, p.surfaces, p.data)
+  let (ch, sh, dh) := (p.cellsHead, p.surfHead, p.dataHead)
   let lines := writeLines p
   let physOk := lines.all (fun l => physical limit l == l)
   let bad (cs : List WCard) : List Json := (cs.filter (fun c => !cardOKb c)).map (fun c => sj c.first)
